@@ -174,7 +174,7 @@ def install(R):
           modifies=["self.crop", "self._batch_cases", "self._counter", "self._batch_counter", "self.g_stream", "self.g_k"],
           ensures=[("inv0", "SowerInv(self)"), ("k0", "self.g_k == 0 and self._batch_counter == 0 and self.crop == crop")])
 
-    R.add(K + "Sower.save_batch", cls="Sower", result="none", props=["C07", "C04", "C10"],
+    R.add(K + "Sower.save_batch", cls="Sower", result="none", props=["C07", "C04"], prop_map={"crash.": ["C10"]},
           requires=[("counter", "self._batch_counter >= 0")],
           modifies=["self._batch_counter", "self._batch_cases", "self._counter", "ghost:FS"],
           raises={"OSError": dict(ensures=["OldOrNewAtomically(BatchPath(self.crop.location, old(self._batch_counter) + 1), old(self._batch_cases))"])},
@@ -188,7 +188,7 @@ def install(R):
           ],
           crash=[("crash.batch_file_old_or_complete", "OldOrNewAtomically(BatchPath(self.crop.location, old(self._batch_counter) + 1), old(self._batch_cases))")])
 
-    R.add(K + "Sower.__call__", cls="Sower", types={}, result="none", props=["C07", "C04", "C10"],
+    R.add(K + "Sower.__call__", cls="Sower", types={}, result="none", props=["C07", "C04"], prop_map={"crash.": ["C10"]},
           requires=[("inv", "SowerInv(self)")],
           ghost_entry=["self.g_stream = snoc(self.g_stream, kwargs)", "self.g_k = self.g_k + 1"],
           modifies=["self._batch_counter", "self._batch_cases", "self._counter", "self.g_stream", "self.g_k", "ghost:FS"],
